@@ -19,6 +19,7 @@ package override
 import (
 	"cmp"
 	"fmt"
+	"reflect"
 	"strings"
 
 	"github.com/compose-spec/compose-go/v2/tree"
@@ -139,7 +140,8 @@ func mergeLogging(c any, o any, p tree.Path) (any, error) {
 	// we override logging config if source and override have the same driver set, or none
 	d, ok1 := other["driver"]
 	o, ok2 := config["driver"]
-	if d == o || !ok1 || !ok2 {
+	// (wrongly typed drivers are left to the schema: DeepEqual does not panic on values that cannot be compared)
+	if !ok1 || !ok2 || reflect.DeepEqual(d, o) {
 		return mergeMappings(config, other, p)
 	}
 	return other, nil
@@ -200,7 +202,7 @@ func mergeExtraHosts(c any, o any, _ tree.Path) (any, error) {
 	// Rewrite content of left slice to remove duplicate elements
 	i := 0
 	for _, v := range left {
-		if !slices.Contains(right, v) {
+		if !slices.ContainsFunc(right, func(e any) bool { return reflect.DeepEqual(e, v) }) {
 			left[i] = v
 			i++
 		}
